@@ -16,11 +16,11 @@ import (
 // C16 — garbage collection removes exactly what the GC rules condemn.
 
 type C16Case struct {
-	Engine string            `json:"engine"`
-	Fams   []bt.FamDef       `json:"fams"`
-	Now    int64             `json:"now"` // clock of the pass (micros)
-	Rows   []C05Row          `json:"rows"`
-	Mode   string            `json:"mode"` // force | fresh (non-forced right after activity) | aged (non-forced, activity aged 6 min)
+	Engine string      `json:"engine"`
+	Fams   []bt.FamDef `json:"fams"`
+	Now    int64       `json:"now"` // clock of the pass (micros)
+	Rows   []C05Row    `json:"rows"`
+	Mode   string      `json:"mode"` // force | fresh (non-forced right after activity) | aged (non-forced, activity aged 6 min)
 }
 
 const c16Now = int64(10_000_000_000) // 10 000 s
